@@ -184,22 +184,25 @@ def block_thermal_holstein(ctx, ht):
                dict(kind="ps", solver="krylov"), dict(kind="ps2", solver="krylov"),
                dict(kind="pc", adaptive=True, adaptive_rtol=1e-6, guess_dt=0.05),
                dict(kind="muvmf", ivp_rtol=1e-7, ivp_atol=1e-9, force_ovlp=True, reg_epsilon=1e-10),
+               dict(kind="vmf", ivp_rtol=1e-7, ivp_atol=1e-9, force_ovlp=True, reg_epsilon=1e-10),
                dict(kind="cmf", solver="krylov", midpoint=True)]
     explicit_sector = bool(rng.random() < 0.5)
     # per model: both sectors with a random scheme, then the one-exciton sector once more with the constant-mean-field scheme
-    for ex, forced in ((False, None), (True, None), (True, schemes[-1])):
+    # and (every other model) with the plain variable-mean-field scheme
+    plan = [(False, None), (True, None), (True, schemes[-1])] + ([(True, schemes[-2])] if rng.random() < 0.5 else [])
+    for ex, forced in plan:
         P = np.diag(ht.sector(1 if ex else 0).astype(float))
         # beta over two decades (in units of the spectral width)
         beta = float(10 ** rng.uniform(-1.3, 0.7)) / nh
         spec = forced if forced is not None else schemes[int(rng.integers(0, len(schemes)))]
         nm = name_of(spec)
-        nsteps = int(rng.integers(1, 5)) if spec.get("adaptive") or spec["kind"] in ("muvmf",) else int(rng.integers(4, 9))
-        if spec["kind"] in ("ps", "ps2", "muvmf", "cmf"):
+        nsteps = int(rng.integers(1, 5)) if spec.get("adaptive") or spec["kind"] in ("muvmf", "vmf") else int(rng.integers(4, 9))
+        if spec["kind"] in ("ps", "ps2", "muvmf", "vmf", "cmf"):
             nsteps = max(nsteps, 6)
         # half of the cases: the ensemble Hamiltonian is passed explicitly (`h_mpo_model`) and the initial density operator
         # was built from ANOTHER model with the same local bases (other energies, couplings and displacements)
         explicit = ex == explicit_sector
-        if explicit and spec["kind"] in ("ps", "ps2", "muvmf", "cmf"):
+        if explicit and spec["kind"] in ("ps", "ps2", "muvmf", "vmf", "cmf"):
             spec = schemes[int(rng.integers(0, 3))]
             nm = name_of(spec)
             nsteps = int(rng.integers(4, 9))
@@ -223,7 +226,12 @@ def block_thermal_holstein(ctx, ht):
                 tp = ThermalProp(init, evolve_config=make_cfg(spec, imag=True))
             tp.evolve(evolve_dt=-1j * beta / 2 / nsteps, nsteps=nsteps)
         except Exception as e:
-            run.violation(f"ThermalProp:{nm}:exception:{exc_sig(e)}", dict(model=ht.describe(), scheme=spec, ex=ex, beta=beta, error=repr(e),
+            es = exc_sig(e)
+            if spec["kind"] == "cmf" and isinstance(e, FloatingPointError):
+                # one defect (ill-conditioned overlap inverse after the automatic bond expansion); the overflow surfaces in
+                # whichever routine touches the numbers first
+                es = "FloatingPointError@any-frame"
+            run.violation(f"ThermalProp:{nm}:exception:{es}", dict(model=ht.describe(), scheme=spec, ex=ex, beta=beta, error=repr(e), raised_in=exc_sig(e),
                                                                           initial_state_model=src.describe() if explicit else "same"))
             continue
         ctx.evald(("thermal", ht.scheme, ex, nm, round(np.log10(beta * nh))))
@@ -231,7 +239,7 @@ def block_thermal_holstein(ctx, ht):
         # tolerance: TDVP on a purified state whose bonds were filled with 1e-10 noise, and fixed-step
         # integrators with beta/2/nsteps steps: order-2 estimate with a generous constant
         dt = beta / 2 / nsteps
-        tol = 2e-3 + 2.0 * (nh * dt) ** 2 if spec["kind"] in ("ps", "ps2", "muvmf", "cmf") else 1e-4 + 0.2 * nsteps * (nh * dt) ** 5
+        tol = 2e-3 + 2.0 * (nh * dt) ** 2 if spec["kind"] in ("ps", "ps2", "muvmf", "vmf", "cmf") else 1e-4 + 0.2 * nsteps * (nh * dt) ** 5
         worst = 0.0
         detail = None
         for k in range(nsteps + 1):
@@ -270,14 +278,25 @@ def block_thermal_exact(ctx, ht):
             D0 = dense_state(init)
             tp = ThermalProp(init, exact=True, space=space)
             tp.evolve(evolve_dt=-1j * beta / 2 / nsteps, nsteps=nsteps)
+            taus = [(beta / 2) * k / nsteps for k in range(nsteps + 1)]
+            if rng.random() < 0.6:
+                # the same job continued by a second call with ANOTHER step: how beta is split into calls must not matter
+                n2 = int(rng.integers(1, 4))
+                dt2 = (beta / 2 / nsteps) * float(rng.choice([0.25, 0.5, 2.0, 3.0]))
+                tp.evolve(evolve_dt=-1j * dt2, nsteps=n2)
+                taus += [taus[-1] + dt2 * (k + 1) for k in range(n2)]
+                run.count("thermal-exact:second-call-with-another-step")
         except Exception as e:
             run.violation(f"ThermalProp:exact:{space}:exception:{exc_sig(e)}", dict(model=ht.describe(), beta=beta, error=repr(e)))
             continue
         ctx.evald(("thermal-exact", ht.scheme, space, nsteps))
         run.count(f"thermal-exact:{space}:scheme{ht.scheme}:nsteps={nsteps}")
         worst = 0.0
-        for k in range(nsteps + 1):
-            r = scipy.linalg.expm(-(beta / 2) * k / nsteps * Hloc) @ D0
+        if len(tp.energies) != len(taus):
+            run.violation(f"ThermalProp:exact:{space}:observable-count", dict(model=ht.describe(), got=len(tp.energies), expected=len(taus)))
+            continue
+        for k, tau_k in enumerate(taus):
+            r = scipy.linalg.expm(-tau_k * Hloc) @ D0
             r = r / np.linalg.norm(r)
             e_ref = float(np.trace(r.conj().T @ H @ r).real)
             worst = max(worst, abs(float(np.real(tp.energies[k])) - e_ref))
@@ -285,7 +304,7 @@ def block_thermal_exact(ctx, ht):
         dfin = float(np.linalg.norm(fin - r))
         if not (worst <= 1e-9 * max(1, opnorm(H)) and dfin <= 1e-10):
             run.violation(f"ThermalProp:exact:{space}:state-or-energy",
-                          dict(model=ht.describe(), beta=beta, nsteps=nsteps, energy_error=worst, final_state_error=dfin))
+                          dict(model=ht.describe(), beta=beta, nsteps=nsteps, imaginary_times=taus, energy_error=worst, final_state_error=dfin))
 
 
 @timed
